@@ -8,6 +8,13 @@
 //	    importer); all packages of one run form one ir.Program built with Program.Build
 //	    (so BuildSerially matters)
 //	c02dump -modes ... -srclist file         like -src, file names read one per line
+//	c02dump -modes ... -funcs a.go b.go ...
+//	    like -src, but every top-level function declaration is a CANDIDATE: each file is
+//	    type-checked in-process with an error handler, the function declarations that contain
+//	    a type error are removed (record `D <pid> <hex func name> <hex first error>`), and the
+//	    rest is checked again until the file is clean; the surviving package is built.  Used
+//	    for the exhaustive statement x expression grid of checks/c02.py, whose non-compiling
+//	    combinations are discarded and counted rather than avoided by the generator.
 //	c02dump -modes ... -dir D -pkgs pattern ...
 //	    packages are loaded once with go/packages (LoadSyntax) from directory D
 //	c02dump ... -print <substring>            additionally write Function.WriteTo text of
@@ -47,6 +54,7 @@ var printSub = flag.String("print", "", "write the text form of functions whose 
 func main() {
 	modes := flag.String("modes", "-", "comma separated builder modes")
 	src := flag.Bool("src", false, "arguments are single-file packages")
+	funcs := flag.Bool("funcs", false, "arguments are single-file packages of candidate functions; ill-typed ones are dropped")
 	srclist := flag.String("srclist", "", "file with one source file name per line")
 	pkgs := flag.Bool("pkgs", false, "arguments are go/packages patterns")
 	dir := flag.String("dir", ".", "directory for -pkgs")
@@ -87,8 +95,10 @@ func main() {
 		*src = true
 	}
 	switch {
+	case *funcs:
+		dumpFiles(d, files, ms, true)
 	case *src:
-		dumpFiles(d, files, ms)
+		dumpFiles(d, files, ms, false)
 	case *pkgs:
 		dumpPkgs(d, *dir, flag.Args(), ms, *tests)
 	default:
@@ -116,6 +126,8 @@ type srcPkg struct {
 	files []*ast.File
 	info  *types.Info
 	err   string
+	// -funcs: candidate functions removed because they do not type-check (name, first error)
+	dropped [][2]string
 }
 
 func newInfo() *types.Info {
@@ -131,7 +143,58 @@ func newInfo() *types.Info {
 	}
 }
 
-func dumpFiles(d *c02ir.Dumper, files []string, modes []string) {
+// checkDropping type-checks f as package path; while there are type errors it removes the
+// top-level function declarations that contain an error position and tries again.  It
+// returns the names of the dropped functions with the first error of each.
+func checkDropping(fset *token.FileSet, imp types.Importer, f *ast.File, path string) (*types.Package, *types.Info, [][2]string, error) {
+	var dropped [][2]string
+	for round := 0; ; round++ {
+		var errs []types.Error
+		info := newInfo()
+		pkg := types.NewPackage(path, f.Name.Name)
+		tc := &types.Config{Importer: imp, Error: func(err error) {
+			if te, ok := err.(types.Error); ok {
+				errs = append(errs, te)
+			}
+		}}
+		err := types.NewChecker(tc, fset, pkg, info).Files([]*ast.File{f})
+		if len(errs) == 0 {
+			return pkg, info, dropped, err
+		}
+		if round > 8 {
+			return nil, nil, dropped, fmt.Errorf("still ill-typed after %d rounds: %v", round, errs[0])
+		}
+		bad := map[*ast.FuncDecl]string{}
+		for _, te := range errs {
+			found := false
+			for _, decl := range f.Decls {
+				fd, ok := decl.(*ast.FuncDecl)
+				if ok && fd.Pos() <= te.Pos && te.Pos <= fd.End() {
+					if _, seen := bad[fd]; !seen {
+						bad[fd] = te.Msg
+					}
+					found = true
+				}
+			}
+			if !found {
+				return nil, nil, dropped, fmt.Errorf("type error outside of a function declaration: %v", te)
+			}
+		}
+		var keep []ast.Decl
+		for _, decl := range f.Decls {
+			if fd, ok := decl.(*ast.FuncDecl); ok {
+				if msg, isBad := bad[fd]; isBad {
+					dropped = append(dropped, [2]string{fd.Name.Name, msg})
+					continue
+				}
+			}
+			keep = append(keep, decl)
+		}
+		f.Decls = keep
+	}
+}
+
+func dumpFiles(d *c02ir.Dumper, files []string, modes []string, dropIllTyped bool) {
 	fset := token.NewFileSet()
 	imp := importer.ForCompiler(fset, "source", nil)
 	var sps []*srcPkg
@@ -144,13 +207,23 @@ func dumpFiles(d *c02ir.Dumper, files []string, modes []string) {
 			continue
 		}
 		sp.files = []*ast.File{f}
-		sp.info = newInfo()
 		base := strings.TrimSuffix(filepath.Base(file), ".go")
 		// the package path must not depend on the position of the file in the argument list
 		// (a replay re-dumps one file alone and looks functions up by name)
 		h := fnv.New32a()
 		h.Write([]byte(file))
-		sp.tpkg = types.NewPackage(fmt.Sprintf("c02/%s_%08x/%s", base, h.Sum32(), f.Name.Name), f.Name.Name)
+		path := fmt.Sprintf("c02/%s_%08x/%s", base, h.Sum32(), f.Name.Name)
+		if dropIllTyped {
+			pkg, info, dropped, err := checkDropping(fset, imp, f, path)
+			sp.dropped = dropped
+			if err != nil {
+				sp.err = "types: " + err.Error()
+			}
+			sp.tpkg, sp.info = pkg, info
+			continue
+		}
+		sp.info = newInfo()
+		sp.tpkg = types.NewPackage(path, f.Name.Name)
 		tc := &types.Config{Importer: imp}
 		if err := types.NewChecker(tc, fset, sp.tpkg, sp.info).Files(sp.files); err != nil {
 			sp.err = "types: " + err.Error()
@@ -162,6 +235,9 @@ func dumpFiles(d *c02ir.Dumper, files []string, modes []string) {
 			sp.pid = d.Package("src/"+sp.file, sp.file)
 			if sp.err != "" {
 				d.Error(sp.pid, ms, sp.err)
+			}
+			for _, dr := range sp.dropped {
+				fmt.Fprintf(d.W, "D %d %s %s\n", sp.pid, c02ir.Hex(dr[0]), c02ir.Hex(dr[1]))
 			}
 		}
 		func() {
